@@ -428,7 +428,18 @@ class Rendered:
             kwargs["model"] = model
         if ctor_listeners:
             kwargs["listeners"] = ctor_listeners
-        sm = self.cls(Hh, **kwargs)
+        if self.spec.get("ctor_positional"):
+            # documented parameter order of StateMachine.__init__
+            order = ["model", "state_field", "start_value", "rtc", "allow_event_without_transition", "listeners"]
+            defaults = {"model": None, "state_field": "state", "start_value": None, "listeners": None}
+            if set(kwargs) <= set(order):
+                last = max(order.index(k) for k in kwargs)
+                pos = [kwargs[k] if k in kwargs else defaults[k] for k in order[: last + 1]]
+                sm = self.cls(Hh, *pos)
+            else:
+                sm = self.cls(Hh, **kwargs)
+        else:
+            sm = self.cls(Hh, **kwargs)
         for p in late:
             if p in objs:
                 sm.add_listener(objs[p])
